@@ -9,7 +9,7 @@ from .c18 import effects_of
 
 TECHNIQUE = "static analysis: flag placement by CFG (set exactly on the time-out paths), start/join/kill pairing on every exit of the manager block, copy-before-teardown ordering, write-set (isolation) of the search functions via attribute-store inventory and the ownership analysis, deadline coverage of every path-enumeration site reachable from the search"
 EXPLANATION = (
-    "R1: every clock read in the search is resolved (time.X directly, through `from time import`, a local/module alias or a staticmethod class attribute) and must be a wall clock (time/monotonic/perf_counter); a CPU clock of the polling parent never expires. timed_out is initialised false before the search and set true only on a path where the search was cut short (the polling loop's exhaustion branch; the sequential deadline test); every early exit from a search loop is such a path. R2: timed_out is what both outputs receive as lcd_warning and what the footer / LCDWarning are keyed on. R3: every started worker is joined on every exit of the manager block; on the time-out path a live worker is killed with an uncatchable signal (os.kill(pid, SIGKILL) or Process.kill(); terminate() = SIGTERM can be caught or ignored through inherited handlers) before it is joined. R4: the shared list is copied inside the manager block, after the joins. R5: the search writes only locals, self.timed_out and copies - not self.dg, not the kernel's instruction forms (throughput and critical path cannot be affected). R6: every path-enumeration site reachable from check_for_loopcarried_dep is under the time-out's control: run in a worker the parent polls and kills, or consumed by a loop that tests the deadline in every iteration (skipped only for timeout == -1). Partial results pass through the same post-processing as complete ones (C05-R4..R6)."
+    "R1: every clock read in the search is resolved (time.X directly, through `from time import`, a local/module alias or a staticmethod class attribute) and must be a wall clock (time/monotonic/perf_counter); a CPU clock of the polling parent never expires. timed_out is initialised false before the search and set true only on a path where the search was cut short (the polling loop's exhaustion branch; the sequential deadline test); every early exit from a search loop is such a path. R2: timed_out is what both outputs receive as lcd_warning and what the footer / LCDWarning are keyed on. R3: every started worker is joined on every exit of the manager block; on the time-out path a live worker is killed with an uncatchable signal (os.kill(pid, SIGKILL) or Process.kill(); terminate() = SIGTERM can be caught or ignored through inherited handlers) before it is joined. R4: the shared list is copied inside the manager block, after the joins. R5: the search writes only locals, self.timed_out and copies - not self.dg, not the kernel's instruction forms (throughput and critical path cannot be affected). R6: every path-enumeration site reachable from check_for_loopcarried_dep is under the time-out's control: run in a worker the parent polls and kills, or consumed by a loop that tests the deadline in every iteration (skipped only for timeout == -1) AND confined to the nodes lying on a source->target path of the acyclic doubled graph, so that every branch of the enumeration ends in a path and the generator cannot search for long without yielding (the deadline is only tested when it yields). Partial results pass through the same post-processing as complete ones (C05-R4..R6)."
 )
 NOT_DECIDED = "Wall-clock bounds, the kill timing relative to the workers' progress, and the process table after return."
 ASSUMPTIONS = ["os.kill(pid, SIGKILL) followed by join() reaps the worker", "one step of networkx's all_simple_paths generator is bounded by the graph size"]
